@@ -31,10 +31,12 @@ VARIABLES l, l0,
           rbOK, dcOK,
           pli, rem, rdone,     \* line of the last CommitBegin (0 = none), real Cache calls since, commit finished
           sync,     \* the model and the real state are comparable in this state
+          hid,      \* <<node, pod>>: the pod was re-nominated onto another GPU of the node it is being evicted from; the node
+                    \* then counts it twice by design (releasing on the old GPU, nominated on the new one) under ONE entry
           taint,    \* some property was FALSE in an earlier state of this scenario (drift monitors are then void)
           dmsg      \* first drift noticed by an event handler ("" = none)
 
-tvars == <<vars, l, l0, ri, oi, cps, rbOK, dcOK, pli, rem, rdone, sync, taint, dmsg>>
+tvars == <<vars, l, l0, ri, oi, cps, rbOK, dcOK, pli, rem, rdone, sync, hid, taint, dmsg>>
 
 real  == Trace[ri].state
 rops  == IF Trace[oi].ev = "Scenario" THEN <<>> ELSE Trace[oi].ops
@@ -68,9 +70,14 @@ TraceInit ==
     /\ act = Lbl("Init", "", "", FALSE, <<>>, 0, "", TRUE)
     /\ cps = [x \in {0} |-> i]
     /\ rbOK = TRUE /\ dcOK = TRUE /\ pli = 0 /\ rem = <<>> /\ rdone = TRUE
-    /\ sync = TRUE /\ taint = FALSE /\ dmsg = ""
+    /\ sync = TRUE /\ hid = {} /\ taint = FALSE /\ dmsg = ""
 
 Ev == Trace[l]
+\* (observed from the logged call and the logged state before it) Pipeline of a shared pod that the node still
+\* holds (virtually evicted) onto other GPU groups of that node
+MovesGpu(e) == /\ cfg.pods[e.p].kind = "frac" /\ real.nodes[e.node].pods[e.p].st = "Releasing"
+               /\ real.nodes[e.node].pods[e.p].groups # e.g
+StillHidden(h, st) == {x \in h : st.nodes[x[1]].pods[x[2]].st = "Pipelined"}
 Here(kind) == l <= Len(Trace) /\ Trace[l].ev = kind
 
 SetS(S) == pod' = S.pod /\ node' = S.node /\ job' = S.job /\ queue' = S.queue /\ ops' = S.ops
@@ -82,6 +89,7 @@ TraceCall ==
          L == Len(e.ops)
      IN
      /\ ri' = l /\ oi' = l /\ sync' = TRUE /\ l' = l + 1
+     /\ hid' = StillHidden(hid \cup (IF e.op = "Pipeline" /\ MovesGpu(e) THEN {<<e.node, e.p>>} ELSE {}), e.state)
      /\ act' = Lbl(e.op, e.p, e.node, e.upd = 1, e.g, e.cp, e.j, e.err = 0)
      /\ CASE e.op = "Evict" ->
                /\ SetS(EvictOp(Cur, e.p)) /\ cps' = SetCp(cps, L, l)
@@ -144,13 +152,13 @@ TraceCache ==
         ELSE /\ dmsg' = IF dmsg = "" THEN "Cache call although the model has no commit step left" ELSE dmsg
              /\ UNCHANGED <<pod, node, job, queue, ops, emitted, ci>>
   /\ sync' = FALSE /\ l' = l + 1
-  /\ UNCHANGED <<ri, oi, cps, rbOK, dcOK, pli, rdone, plan, phase, conv, act>>
+  /\ UNCHANGED <<ri, oi, cps, rbOK, dcOK, pli, rdone, plan, phase, conv, act, hid>>
   /\ Keep
 
 \* a hook inside Rollback / Discard / Convert / Commit: only the real state is observed
 TraceH ==
   /\ Here("H")
-  /\ ri' = l /\ sync' = FALSE /\ l' = l + 1
+  /\ ri' = l /\ sync' = FALSE /\ l' = l + 1 /\ hid' = StillHidden(hid, Ev.state)
   /\ UNCHANGED <<pod, node, job, queue, ops, emitted, plan, phase, ci, conv, act,
                  oi, cps, rbOK, dcOK, pli, rem, rdone, dmsg>>
   /\ Keep
@@ -177,9 +185,10 @@ C14_NodeBaseObs ==
     LET r == real.nodes[n]
         on(S) == {p \in DOMAIN r.pods : r.pods[p].st \in S}
         all == on({"Allocated", "Pipelined", "Binding", "Bound", "Running", "Releasing"})
-    IN /\ r.uc = Sum(all, LAMBDA p : RC(p))
-       /\ r.ic = cfg.nodes[n].cpu - Sum(all \ on({"Pipelined"}), LAMBDA p : RC(p))
-       /\ r.rc = Sum(on({"Releasing"}), LAMBDA p : RC(p)) - Sum(on({"Pipelined"}), LAMBDA p : RC(p))
+        twice == {p \in DOMAIN r.pods : <<n, p>> \in hid}      \* also counted as releasing (see hid)
+    IN /\ r.uc = Sum(all, LAMBDA p : RC(p)) + Sum(twice, LAMBDA p : RC(p))
+       /\ r.ic = cfg.nodes[n].cpu - Sum(all \ on({"Pipelined"}), LAMBDA p : RC(p)) - Sum(twice, LAMBDA p : RC(p))
+       /\ r.rc = Sum(on({"Releasing"}), LAMBDA p : RC(p)) + Sum(twice, LAMBDA p : RC(p)) - Sum(on({"Pipelined"}), LAMBDA p : RC(p))
        /\ r.ug = Sum(all, LAMBDA p : RG(p))
 
 \* StopOn selects the properties whose violation ends a scenario: "C13", "C14" or "all"
